@@ -552,6 +552,11 @@ def _mip(rc: RuleCtx):
     benv.update(b.bindings)
     out = ev.eval_loop_body(fi, loop, benv)
     sts = [e for e in out.events if e.kind == "store"]
+    if not sts:
+        # values collected with .append (a written-out list comprehension): the k-th element is stored at k = i - lo
+        from ..gvn import Event
+        sts = [Event(e.guard, "store", e.target, (b.idx - b.lo, e.args[0]), e.node) for e in out.events
+               if e.kind == "append" and e.guard.kind == "true" and isinstance(env.get(e.target), Vec) and not env[e.target].items]
     dicts = [v for v in env.values() if isinstance(v, Obj) and v.tag == "dict"]
     cache_v = dicts[0] if dicts else None
 
@@ -590,6 +595,7 @@ def _mip(rc: RuleCtx):
     ipname = sts[0].target if sts else "ip"
     ipv = ev.symbol("ip", True)
     penv = {ipname: ipv}
+    penv.update({k: v for k, v in env.items() if k not in penv and k != ipname})
     fr2.block(post, penv, TRUE)
     val = mk_pw(fr2.returns)
     med = anf.opaque("median", ipv, array=False)
